@@ -649,7 +649,7 @@ REUSE_SITES = {
                 "PCAIndVarPredictor", "GetResidualMatrix"],
     "drv_pls": ["PLSScorePredictor", "PLSYPredictorAllLV (score output)", "PLSYPredictorAllLV (response output)", "PLSYPredictorAllLV (no score output requested)",
                 "PLSYPredictor (output reused for 1..A latent variables)"],
-    "drv_alg:mlr": ["MLRPredictY"],
+    "drv_alg:mlr": ["MLRPredictY", "MLRPredictY (R2/SDEC without the optional residual matrix)"],
     "drv_alg:square": ["MatrixInversion", "MatrixInversion (in place)", "MatrixLUInversion", "MatrixLUInversion (in place)"],
     "drv_alg:ols": ["OrdinaryLeastSquares"], "drv_alg:pinv": ["MatrixMoorePenrosePseudoinverse"],
     "drv_alg:eig": ["EVectEval (eigenvalues)", "EVectEval (eigenvectors)"], "drv_alg:svd": ["SVDlapack (U)", "SVDlapack (S)", "SVDlapack (V')", "SVDlapack (input object used as an output)"],
